@@ -81,11 +81,13 @@ def run(idx, rep, tier):
         um = {k2: v for k, k2, v in p.trace if k == "set" and k2.endswith(".unmatched")}
         for cp in ran_ok:
             v = um.get(f"res{cp[2:]}.unmatched")
-            if not (isinstance(v, Residual) and v.text == f"{cp}.unmatched"):
+            if not ((isinstance(v, Residual) and v.text == f"{cp}.unmatched") or v == Obj(f"UNM:{cp}")):
                 bad = bad or f"member {cp}: result.unmatched ← {v!r}; documented: the member's own unmatched lines"
     rep.check(bad is None, "R3", f"{fi.file}::CsvPaths.collect_paths feeds each member's own result", bad or f"{len(paths)} paths", K.where(fi, fi.node))
     r4(idx, rep)
     r5(idx, rep)
+    unmatched_cells(idx, rep, "R5")
+    serial_unmatched(idx, rep, "R5")
     spooler_table(idx, rep, "R1")
     empty_collection(idx, rep, "R1")
     run_manifest_e2e(idx, rep, "R1")
@@ -249,6 +251,50 @@ def r4(idx, rep):
 
 def r4_deref(idx, rep):
     c10.r2(idx, K.as_rule(rep, "R4", keep=lambda k: "_deref_paths_name" in k))
+
+
+def serial_unmatched(idx, rep, rid):
+    """a collecting serial run archives, for every member that ran, the unmatched lines that member kept — also when the member's run ended
+    with an exception (handled or re-raised): the result is saved with the csvpath's unmatched lines on every path of the run method"""
+    from . import runs_model as RM
+    for method, collect in (("collect_paths", False), ("next_paths", True)):
+        fi, paths = RM.serial_rows(idx, method, collect=collect)
+        bad = None
+        for p in paths:
+            ran = [v for kk, v in RM.events(p) if kk == "run"]
+            saved = dict(v for kk, v in RM.events(p) if kk == "saved-unmatched")
+            for cp in ran:
+                res = "res" + cp[2:]
+                if res in saved and saved[res] != Obj(f"UNM:{cp}"):
+                    bad = bad or (f"{method} with {[(t, v) for t, v in p.choices if not t.startswith('self.')]}: the result of member {cp} is saved with unmatched lines {saved[res]!r}; "
+                                  f"documented: the lines the member kept (UNM:{cp}) — unmatched.csv would be missing or stale")
+        rep.check(bad is None, rid, f"{fi.file}::CsvPaths.{method} saves the member's unmatched lines on every path", bad or f"{len(paths)} paths", K.where(fi, fi.node))
+
+
+def unmatched_cells(idx, rep, rid):
+    """unmatched.csv parses back to exactly the unmatched lines only if those lines hold cell text: csv has no way to write None (it comes
+    back as ''), so the projection of a short unmatched line under collect() must fill a missing cell with text, not with None.
+    Decided on the functions that put lines into CsvPath.unmatched: every one is interpreted on a short and on a blank line."""
+    fn = idx.method("CsvPath", "next")
+    names = sorted({call_name(c) for n in ast.walk(fn.node) if isinstance(n, ast.Call) and call_name(n) == "append" and "unmatched" in unparse(n.func)
+                    for c in ast.walk(n) if isinstance(c, ast.Call) and call_name(c) not in ("append",)} |
+                   {call_name(a.value) for a in ast.walk(fn.node) if isinstance(a, ast.Assign) and isinstance(a.value, ast.Call) and (K.call_receiver(a.value) or "") == "self"
+                    and any(isinstance(n, ast.Call) and call_name(n) == "append" and "unmatched" in unparse(n.func) for n in ast.walk(fn.node))
+                    and call_name(a.value) in ("limit_collection", "_limit_unmatched")})
+    names = [n for n in names if n and idx.has_method("CsvPath", n)]
+    bad = None
+    for nm in names:
+        f = idx.method("CsvPath", nm)
+        rep.analysed(f)
+        for line in (["4"], [], ["1", "2", "3"]):
+            it = Interp(idx, types={"self": "CsvPath"}, unknown_calls="residual", inline={"CsvPath.limit_collection_to"})
+            ps = it.run_all(f, args={"line": list(line)}, store={"self." + K.names(idx)["limit"]: [0, 2], "self.limit_collection_to": [0, 2],
+                                                                 "self.line_monitor.physical_line_number": 3, "self.identity": "id"})
+            for p in ps:
+                if p.result[0] == "return" and isinstance(p.result[1], list) and any(not isinstance(x, str) for x in p.result[1]):
+                    bad = bad or (f"CsvPath.{nm}({line!r}) under collect(0, 2) keeps {p.result[1]!r}: a cell that is not text is written to unmatched.csv as '' "
+                                  "and does not parse back to the line that was kept")
+    rep.check(bad is None and bool(names), rid, f"{fn.file}::unmatched lines hold cell text only", bad or f"{names}", K.where(fn, fn.node))
 
 
 def r5(idx, rep):
